@@ -241,12 +241,12 @@ def plan(tier, seed):
     q = tier == "quick"
     specs = []
     for g in range(len(GROUPS)):
-        specs.append({"kind": "bounds", "group": g, "env": {"NUMBA_BOUNDSCHECK": "1"}, "reps_min": 3, "reps_edge": 12 if q else 60, "reps_random": 12 if q else 120})
+        specs.append({"kind": "bounds", "group": g, "env": {"NUMBA_BOUNDSCHECK": "1"}, "reps_min": 3, "reps_edge": 12 if q else 300, "reps_random": 12 if q else 600})
     for g in range(len(GROUPS)):
-        specs.append({"kind": "poison", "group": g, "reps_min": 2, "reps_edge": 8 if q else 40, "reps_random": 8 if q else 60})
+        specs.append({"kind": "poison", "group": g, "reps_min": 2, "reps_edge": 8 if q else 200, "reps_random": 8 if q else 300})
     for g in range(len(GROUPS)):
         if any(PR.BY_NAME[n].kind == "gufunc" for n in GROUPS[g]):
-            specs.append({"kind": "guard", "group": g, "reps_edge": 3 if q else 20, "reps_random": 2 if q else 20})
+            specs.append({"kind": "guard", "group": g, "reps_edge": 3 if q else 60, "reps_random": 2 if q else 60})
     return specs
 
 
